@@ -1636,7 +1636,13 @@ def idx_list_to_index_array(idx_list):
     if len(idx_list) == 0:
         return None
     elif len(idx_list) == 1:
-        return idx_list[0].as_array()
+        idx = idx_list[0]
+        if idx._src_shape is None:
+            return idx.as_array()
+        # index into the source so that negative indices are resolved and a non-tuple index into
+        # a non-flat multidimensional source selects whole subarrays.
+        arr = np.arange(shape_to_len(idx._src_shape)).reshape(idx._src_shape)
+        return np.atleast_1d(idx.indexed_val(arr)).ravel()
     else:
         idx = idx_list[0]
         arr = np.arange(shape_to_len(idx._src_shape)).reshape(idx._src_shape)
